@@ -45,18 +45,28 @@ def check(ctx):
         ctx.check(ok, "D4-ctor", i2, "%s.__init__ forwards **%s to Exchange.__init__" % (cn, i2.args.kwarg.arg if i2.args.kwarg else "?"), "settings would be dropped")
     pr = E.own_method("process")
     V = FuncView(ctx, pr)
-    t1 = V.tests(lambda t: src(t) == "self.timeout > 0.0 and self.timer.expired")
-    t2 = V.tests(lambda t: src(t) == "self.redoTimeout > 0.0 and self.redoTimer.expired")
     fl = V.call_nodes("self.fail")
-    rets = [n for n in V.cfg.nodes if n.kind == "return"]
-    ok = bool(t1) and bool(t2) and bool(fl) and V.dominated_by_edge(fl, t1[0], "T") and V.dominated_by_edge([t2[0]], t1[0], "F") and \
-        any(V.dominated_by_edge([r], t1[0], "T") and r.id in V.cfg.reachable(fl[0].id) for r in rets)
-    ctx.check(ok, "T3-process", pr, "process: `timeout > 0.0 and timer.expired` => fail(); return - before the redo test",
-              "an exchange must fail exactly when its overall timeout elapses first (no retransmission after failing), and a timeout "
-              "of zero never expires")
     rs = V.call_nodes("self.redoTimer.restart")
     sd = V.calls("self.send")
-    ok = bool(t2) and bool(rs) and len(sd) == 1 and V.dominated_by_edge(rs + [sd[0][0]], t2[0], "T") and src(sd[0][1].args[0]) == "self.tx"
+    redo = rs + [n for n, _ in sd]
+    # by path conditions (any spelling: early return, if/elif, nested or merged guards)
+    ok = bool(fl) and all({"self.timeout > 0.0", "self.timer.expired"} <= V.facts(f) for f in fl)
+    # failing ends the step: nothing of the redo arm can follow fail() in the same call
+    ok = ok and bool(redo) and not any(r.id in V.cfg.reachable(f.id) for f in fl for r in redo)
+    # the overall timeout is looked at first: the redo arm runs only when it did not fire
+    ok = ok and all(("not self.timer.expired" in V.facts(r) or "self.timeout <= 0.0" in V.facts(r) or
+                     not any(r.id in V.cfg.reachable(f.id) for f in fl)) for r in redo)
+    ok = ok and all(any(t.kind == "test" and "self.timer.expired" in src(t.ast.test) and V.dominated([r], [t]) for t in V.cfg.nodes) for r in redo)
+    ctx.check(ok, "T3-process", pr, "process: `timeout > 0.0 and timer.expired` => fail() and nothing else - decided before the redo test",
+              "an exchange must fail exactly when its overall timeout elapses first (no retransmission after failing), and a timeout "
+              "of zero never expires")
+    R = {"self.redoTimeout > 0.0", "self.redoTimer.expired"}
+
+    def own(fs):      # conditions other than the (negated) overall-timeout test that may legitimately be on the path
+        return {f for f in fs if "self.timer" not in f and "self.timeout" not in f}
+    ok = len(rs) == 1 and len(sd) == 1 and own(V.core_facts(rs[0])) == R and \
+        R <= own(V.core_facts(sd[0][0])) <= R | {"self.tx is not None"} and \
+        src(sd[0][1].args[0]) == "self.tx" and V.dominated([sd[0][0]], rs)
     ctx.check(ok, "T3-process", pr, "redo arm: redoTimer.restart(); send(self.tx) once", "retransmit the latest message once each time the redo interval elapses")
     for cn, first in (("Exchanger", "self.send"), ("Exchangent", "self.respond")):
         st = ctx.cls("exchanging", cn).own_method("start")
